@@ -213,6 +213,37 @@ def f10w_{k}(n: size, y: f32[n]):
 """
         out.append(Prog(f"f10w_{k}", src, f"f10w_{k}", "F10", (mem, "window-after-base")))
         k += 1
+    # chains of windows over a local allocation: the last use goes through the 1st / 2nd / 3rd window,
+    # by a read, a write, a reduction or a call argument, with or without an intervening use of the base
+    fill = """
+@proc
+def f10_fill(d: [f32][2], v: f32):
+    for j in seq(0, 2):
+        d[j] = v
+"""
+    for depth, last, touch in itertools.product([1, 2, 3], ["read", "write-read", "call", "reduce"], ["none", "base", "w1"]):
+        chain = ["w1 = t[1:7]"]
+        if depth >= 2:
+            chain.append("w2 = w1[1:5]")
+        if depth >= 3:
+            chain.append("w3 = w2[1:3]")
+        inner = f"w{depth}"
+        mid = {"none": [], "base": ["y[0] = t[0]"], "w1": ["y[0] = w1[0]"]}[touch]
+        if last == "read":
+            use = ["for i in seq(0, 2):", f"    y[i + 1] = {inner}[i]"]
+        elif last == "write-read":
+            use = ["for i in seq(0, 2):", f"    {inner}[i] = 5.0", f"    y[i + 1] = {inner}[i]"]
+        elif last == "call":
+            use = [f"f10_fill({inner}[0:2], 3.0)", "for i in seq(0, 2):", f"    y[i + 1] = {inner}[i]"]
+        else:
+            use = ["for i in seq(0, 2):", f"    {inner}[i] += 1.0", f"    y[i + 1] = {inner}[i]"]
+        lines = ["@proc", f"def f10c_{k}(n: size, y: f32[n + 3]):", "    t: f32[8] @ DRAM", "    for i in seq(0, 8):", "        t[i] = 1.0"]
+        lines += ["    " + l for l in chain + mid + use]
+        # a second allocation afterwards makes a premature free observable even without a sanitizer
+        lines += ["    u: f32[8] @ DRAM", "    for i in seq(0, 8):", "        u[i] = 9.0", "    y[0] = u[0]"]
+        src = fill + "\n".join(lines) + "\n"
+        out.append(Prog(f"f10c_{k}", src, f"f10c_{k}", "F10", ("chain", depth, last, touch)))
+        k += 1
     return out
 
 
